@@ -57,6 +57,19 @@ impl<T: PartialEq + Eq + Hash> AvailableValueMap<T> {
     pub fn extend(&mut self, other: Self) {
         self.map.extend(other.map);
     }
+
+    /// Forget every value that is expressed in terms of the *current* contents
+    /// of one of the given registers.
+    ///
+    /// Once such a register is overwritten, the value no longer describes
+    /// what the key holds.
+    pub fn forget_values_reading(&mut self, registers: &RegisterSet) {
+        self.map.retain(|_, value| match value {
+            AvailableValue::RegisterWithScalar(reg, _)
+            | AvailableValue::MemoryAtRegister(reg, _) => !registers.contains(reg),
+            _ => true,
+        });
+    }
 }
 
 impl<T: PartialEq + Eq + Hash> IntoIterator for AvailableValueMap<T> {
